@@ -169,7 +169,9 @@ def gen_cell(rng, n):
         d["kinds"]["solid_solutions"] = [rng.choice([0.001, 0.01]), rng.choice([0, 0.001])]
     if rng.chance(30):
         d["kinds"]["kinetics"] = {"rate": rng.choice(["lin", "first"]), "formula": rng.choice([[["NaCl", 1]], [["CaCl2", 0.5], ["NaCl", 1]], [["Calcite", 1]], [["NaCl", -1]]]), "m0": rng.choice([0.001, 0.01]),
-                                  "parm": rng.choice([1e-7, 1e-6]), "steps": rng.choice([[100], [100, 200], [1000]]), "cvode": rng.chance(30)}
+                                  "parm": rng.choice([1e-7, 1e-6, 1e-5, 3e-5]), "steps": rng.choice([[100], [100, 200], [1000]]), "cvode": rng.chance(30),
+                                  # reactants that run out in the middle of a time step, in a later integration sub-interval
+                                  "step_divide": rng.choice([0, 0, 10, 50])}
     if rng.chance(25):
         # edge case: an element that is absent from the whole cell while a gas phase / phase list still names it with zero moles
         d["sol"]["C"] = 0
@@ -212,7 +214,8 @@ def cell_text(c, db="phreeqc"):
         t += "SOLID_SOLUTIONS %d\n CaSr\n -comp %s %s\n -comp %s %s\n" % (n, prof["ss"][0], k["solid_solutions"][0], prof["ss"][1], k["solid_solutions"][1])
     if "kinetics" in k:
         q = k["kinetics"]
-        t += "KINETICS %d\n %s\n -formula %s\n -m0 %s\n -parms %s\n -steps %s\n -cvode %s\n" % (n, q["rate"], " ".join("%s %s" % (a, b) for a, b in q["formula"]), q["m0"], q["parm"], " ".join(str(x) for x in q["steps"]), "true" if q["cvode"] else "false")
+        t += "KINETICS %d\n %s\n -formula %s\n -m0 %s\n -parms %s\n -steps %s\n -cvode %s\n%s" % (n, q["rate"], " ".join("%s %s" % (a, b) for a, b in q["formula"]), q["m0"], q["parm"], " ".join(str(x) for x in q["steps"]), "true" if q["cvode"] else "false",
+                                                         (" -step_divide %d\n" % q["step_divide"]) if q.get("step_divide") else "")
     return t + "END\n"
 
 
